@@ -29,6 +29,23 @@ theorem PreWF.wf {m : Map} {t : Table} (h : PreWF m t) (hc : m.count = Int.ofNat
     (hb : m.count < m.sizeCtl ∨ t.length = MAXIMUM_CAPACITY) : WF m :=
   (wf_some_iff h.table).2 ⟨h.twf, hc, h.sc, hb⟩
 
+/-- `len` of a well-formed state is the number of entries -/
+theorem WF.len_eq {m : Map} (hw : WF m) : len m = (entries m).length := by
+  cases ht : m.table with
+  | none =>
+    rw [entries_of_table_none ht, len, ((wf_none_iff ht).1 hw).1]; rfl
+  | some t =>
+    have hc := ((wf_some_iff ht).1 hw).2.1
+    simp only [len, hc, Int.ofNat_eq_natCast]
+    split
+    · omega
+    · exact Int.toNat_natCast _
+
+theorem WF.count_nonneg {m : Map} (hw : WF m) : 0 ≤ m.count := by
+  cases ht : m.table with
+  | none => rw [((wf_none_iff ht).1 hw).1]; exact Int.le_refl _
+  | some t => rw [((wf_some_iff ht).1 hw).2.1]; exact Int.natCast_nonneg _
+
 /-- `PreWF` does not depend on the count -/
 theorem PreWF.of_eq {m m' : Map} {t : Table} (h : PreWF m t) (ht : m'.table = m.table)
     (hh : m'.hash = m.hash) (hs : m'.sizeCtl = m.sizeCtl) : PreWF m' t :=
